@@ -15,7 +15,7 @@ func init() {
 		Explain:    "Decides structural necessary conditions of presence discipline: (1) zero-skipping (NoZero) coders are installed exactly for fields without explicit presence that are not oneof members, and every such coder's size and append functions skip under the same zero test (including the -0.0 test for floats); (2) in every generated opaque message, each presence call Present/SetPresent/ClearPresent/SetPresentNonAtomic(&x.XXX_presence[k], n, size) has k == n/32, n equal to the position of the accessed hidden field in the struct's declaration order (a oneof counted once), n < size, size equal to the number of presence slots and the presence array of length ceil(size/32); (3) the runtime's presenceIndex and the generator's opaqueFieldPresenceIndex count a field under the same condition (not a oneof member, or the last member of its oneof); (4) both descriptor builders derive HasPresence's input (IsFieldPresence, IsLegacyRequired) from the same FeatureSet values (EXPLICIT or LEGACY_REQUIRED; LEGACY_REQUIRED). Also decided: the fast-path merge loop merges a field iff it is populated in the source by the presence discipline (presence bit for tracked fields — a nil slot with the bit set is an undecoded lazy field — non-nil pointer otherwise) and decodes undecoded lazy operands first (R-MERGE-LOOP, all 160 consistent field states); AnyPresent scans exactly ceil(size/32) bitmap words (R-PRESENCE-WORDS, sizes 0..4096).",
 		NotCovered: "HasPresence resolution on concrete schemas (runtime descriptor data), presence round trips through JSON/text, the open-struct API where presence is pointer-ness.",
 		Quick:      all("./internal/impl", "./internal/filedesc", "./reflect/protodesc", "./cmd/protoc-gen-go/internal_gengo", "./internal/testprotos/lazy/...", "./internal/testprotos/testeditions/testeditions_opaque", "./internal/testprotos/mixed"),
-		Thorough:   all("./..."),
+		Thorough:   allAndLegacy("./internal/impl", "./internal/filedesc", "./reflect/protodesc", "./cmd/protoc-gen-go/internal_gengo", "./internal/testprotos/lazy/...", "./internal/testprotos/testeditions/testeditions_opaque", "./internal/testprotos/mixed"),
 		Run: func(c *Ctx) {
 			c.ruleMergeLoop("R-MERGE-LOOP")
 			c.rulePresenceWords("R-PRESENCE-WORDS")
